@@ -556,6 +556,20 @@ func (x *gen) messageLevel(b built, pver uint32, enc string, p []byte) {
 	good := frameMsg(net, []byte(b.kind), uint32(len(p)), ck, p)
 	x.msgCase("msg-valid", pver, net, enc, good)
 	if r.Chance(1, 3) {
+		st := good
+		switch r.Intn(5) {
+		case 0:
+			st = append(append([]byte{}, good...), r.Bytes(1+r.Intn(20))...)
+		case 1:
+			st = good[:r.Intn(len(good)+1)]
+		case 2:
+			st = append([]byte{}, good...)
+			st[r.Intn(len(st))] ^= byte(1 << r.Intn(8))
+		}
+		x.emit("api-agree", true, fmt.Sprintf("C08 api %d %d %s", pver, net, hx(st)))
+	}
+	x.v2Level(b, pver, enc, p)
+	if r.Chance(1, 3) {
 		x.msgCase("msg-valid+rest", pver, net, enc, append(append([]byte{}, good...), r.Bytes(1+r.Intn(30))...))
 	}
 	switch r.Intn(12) {
@@ -922,6 +936,7 @@ func (P) Generate(g *core.Gen) {
 		}
 	}
 	x.sequences()
+	x.helperAPIs()
 	// random garbage into every decoder
 	for i := 0; i < g.N(300, 6000); i++ {
 		kind := kinds[r.Intn(len(kinds))]
@@ -1037,6 +1052,159 @@ func joinOps(ops []string) string {
 	for i, o := range ops {
 		if i > 0 {
 			s += ","
+		}
+		s += o
+	}
+	return s
+}
+
+// v2Level: BIP324 plaintext framing of the same payload: short id where the command owns one, the 12-byte form,
+// and their hostile variants.
+func (x *gen) v2Level(b built, pver uint32, enc string, p []byte) {
+	r := x.r
+	if !r.Chance(1, 2) {
+		return
+	}
+	ids, cmds := wire.VerifV2Table()
+	short := -1
+	for i, c := range cmds {
+		if c == b.kind {
+			short = int(ids[i])
+		}
+	}
+	long := append(append([]byte{0}, frameCmd(b.kind)...), p...)
+	emit := func(class string, pt []byte) {
+		x.emit(class, true, fmt.Sprintf("C08 v2 %d %s %s", pver, enc, hx(pt)))
+	}
+	if short >= 0 {
+		emit("v2-short", append([]byte{byte(short)}, p...))
+		if r.Chance(1, 4) {
+			emit("v2-long-of-short", long) // accepted, re-written short: F-C08-f
+		}
+	} else {
+		emit("v2-long", long)
+	}
+	switch r.Intn(8) {
+	case 0:
+		emit("v2-unknown-id", append([]byte{[]byte{3, 4, 10, 20, 29, 30, 127, 255}[r.Intn(8)]}, p...))
+	case 1:
+		emit("v2-trunc", long[:r.Intn(14)])
+	case 2:
+		base := long
+		if short >= 0 {
+			base = append([]byte{byte(short)}, p...)
+		}
+		emit("v2-trailing", append(append([]byte{}, base...), r.Bytes(1+r.Intn(4))...))
+		if len(base) > 1 {
+			emit("v2-trunc", base[:1+r.Intn(len(base)-1)])
+		}
+	case 3:
+		bad := append([]byte{0}, frameCmd(b.kind)...)
+		bad[1+r.Intn(12)] ^= 0x20
+		emit("v2-badcommand", append(bad, p...))
+		emit("v2-badcommand", append(append([]byte{0}, frameCmd(b.kind + "\x00x")...), p...))
+	case 4:
+		// another kind's short id in front of this payload
+		emit("v2-crosskind", append([]byte{byte(ids[r.Intn(len(ids))])}, p...))
+	}
+}
+
+func frameCmd(cmd string) []byte {
+	var c [12]byte
+	copy(c[:], cmd)
+	return c[:]
+}
+
+// helperAPIs: MsgTx / MsgBlock helper methods, and value semantics of decode results.
+func (x *gen) helperAPIs() {
+	r := x.r
+	mk := func(pattern int) *wire.MsgTx {
+		t := &wire.MsgTx{Version: int32(x.u32()), LockTime: x.u32()}
+		nIn := 1 + r.Intn(4)
+		for i := 0; i < nIn; i++ {
+			in := &wire.TxIn{PreviousOutPoint: wire.OutPoint{Hash: x.hash(), Index: x.u32()}, SignatureScript: r.Bytes(x.blen(600)), Sequence: x.u32()}
+			wit := false
+			switch pattern {
+			case 1:
+				wit = true
+			case 2:
+				wit = i > 0 // the first input has none
+			case 3:
+				wit = i == nIn-1
+			case 4:
+				wit = r.Bool()
+			}
+			if wit {
+				for k := 1 + r.Intn(3); k > 0; k-- {
+					in.Witness = append(in.Witness, r.Bytes(1+x.blen(300)))
+				}
+			}
+			t.TxIn = append(t.TxIn, in)
+		}
+		for i := r.Intn(4); i > 0; i-- {
+			t.TxOut = append(t.TxOut, &wire.TxOut{Value: int64(x.u64()), PkScript: r.Bytes(x.blen(600))})
+		}
+		return t
+	}
+	var subs []string
+	for i := 0; i < x.g.N(120, 1200); i++ {
+		t := mk(i % 5)
+		x.emit("txapi", true, "C08 txapi "+hx(serTx(t)))
+		if i%4 == 0 {
+			subs = append(subs, "tx/70016/w/"+hx(serTx(t)))
+		}
+	}
+	for i := 0; i < x.g.N(50, 500); i++ {
+		b := &wire.MsgBlock{Header: x.header()}
+		for j := r.Intn(5); j > 0; j-- {
+			b.Transactions = append(b.Transactions, mk(r.Intn(5)))
+		}
+		var w bytes.Buffer
+		b.Serialize(&w)
+		x.emit("blkapi", true, "C08 blkapi "+hx(w.Bytes()))
+		if i%3 == 0 {
+			subs = append(subs, "block/70016/w/"+hx(w.Bytes()))
+		}
+	}
+	// truncated / extended bytes into the helper ops
+	for i := 0; i < x.g.N(20, 200); i++ {
+		p := serTx(mk(r.Intn(5)))
+		if r.Bool() {
+			p = p[:r.Intn(len(p))]
+		} else {
+			p = append(p, 0)
+		}
+		x.emit("txapi", true, "C08 txapi "+hx(p))
+	}
+	// other kinds for the overlap classes
+	for _, k := range []string{"inv", "headers", "addr", "version", "merkleblock", "cfheaders", "reject", "getblocks"} {
+		for j := 0; j < 3; j++ {
+			bb := x.build(k)
+			if p, ok := x.payload(bb, 70016, "b"); ok && len(p) < 20000 {
+				subs = append(subs, fmt.Sprintf("%s/70016/b/%s", k, hx(p)))
+			}
+		}
+	}
+	// results are values (decode all, observe afterwards) and no hidden shared state (>= 8 goroutines)
+	for i := 0; i < x.g.N(12, 80); i++ {
+		n := 8 + r.Intn(8)
+		pick := make([]string, n)
+		for j := range pick {
+			pick[j] = subs[r.Intn(len(subs))]
+		}
+		mode := "s"
+		if i%2 == 1 {
+			mode = "c"
+		}
+		x.emit("multi-"+mode, true, "C08 multi "+mode+" "+joinWith(pick, "|"))
+	}
+}
+
+func joinWith(l []string, sep string) string {
+	s := ""
+	for i, o := range l {
+		if i > 0 {
+			s += sep
 		}
 		s += o
 	}
